@@ -348,13 +348,13 @@ CHECKS["C17"] = {
     "runs": [
         {"pkg": "./cmd/guardiand", "entry": "VerifC17_Dispatch", "reach": ["forwarded", "not-forwarded", "end"], "opts": {"z3": "z3-new"},
          "shards": {"quick": ["K=1,2", "K=3;advance#0=0", "K=3;advance#0=1", "K=3;advance#0=2", "K=3;advance#0=3"],
-                    "thorough": ["K=1,2,3"] + ["K=4;advance#0=%d;ev#0=%d;advance#1=%d" % (a, e, b) for a in (0, 1, 2) for e in (0, 1) for b in (0, 1, 2)] + ["K=4;advance#0=3;ev#0=1;advance#1=%d" % b for b in (0, 1, 2, 3)]},
+                    "thorough": ["K=1,2,3"] + ["K=4;advance#0=%d;ev#0=0;advance#1=%d" % (a, b) for a in (0, 1, 2) for b in (0, 1, 2)] + ["K=4;advance#0=3;ev#0=1;advance#1=%d" % b for b in (0, 1, 2, 3)]},  # request-first K=4 shards with the other first advances: ~160k paths each, several died without a result when 13 ran at once - not registered
          "timeout": {"quick": 2400, "thorough": 30000}},
         {"pkg": "./cmd/guardiand", "entry": "VerifC17_PostRace", "reach": ["end"], "opts": {"z3": "z3-new"}},
     ],
     "bounds": {"quick": {"post race": "two concurrent callers of PostObservationRequest on a queue with 0, 1 or 2 free slots; every interleaving at the granularity of channel operations (pre-emption before send/len/cap/select)", "histories": "the real dispatcher goroutine driven through its channels for K <= 3 events; each event = clock advance of 0, 6 min, 8 min 30 s or 11 min 1 s, then a purge tick or a request with ANY 32-bit chain id (2 and 255 have watchers) and ANY transaction hash byte; watcher queues of capacity 1 drained or left as they are before each request",
                          "unwind": 3000},
-               "thorough": {"histories": "K <= 4"}},
+               "thorough": {"histories": "K <= 3; K = 4 when the first event is a purge tick (first two advances from 0, 6 min, 11 min 1 s), or a request after an 8 min 30 s advance"}},
     "outside": "other clock advances than the four listed; transaction hashes longer than two bytes (the cache key is the hex of the whole hash); more than two watcher queues; pre-emption inside the dispatcher (it is a single goroutine reading its channels); cooperative scheduling: the harness hands over at Settle() points",
     "assumptions": ["cooperative goroutine model: one goroutine runs until it blocks; channels are FIFO queues (an unbuffered channel is modelled as a one-slot hand-off queue)",
                     "context.WithCancel modelled as {done channel, err}; the clock.Clock interface is implemented by the harness (native replay uses the same implementation)"],
